@@ -235,6 +235,7 @@ PROPS = {
         "mc": [MC_MERGE],
         "replay": [gen_h("hist", 2, depth=("3", "4")), gen_h("hist", 1), gen_q("big", "E0,E5", maxlen=("7", "8")), gen_q("small", "E0"), gen_mm("hist", depth=("3", "4")), gen_pair("Weighted", "hist", "E0:W0,E5:W2", depth=("3", "4")), gen_pair("Covariance", "hist", "E0:E0,E3:E5", depth=("3", "4")), gen_hist(ALLM, "E0,E3,E5", depth=("5", "6"), slots=("{1}", "{1, 2}")), gen_hist(ALLM, "E0,E5")],
         "trace": [TR_Q],
+        "direct": [{"cmd": "direct", "family": "histserde", "args": {"reps": ("20", "200")}}],
         "rule": "every history with checkpoints at every position; two real executions (with / without the JSON round trip) "
                 "compared bit for bit on every accessor",
         "bounds": {"quick": "depth <= 5 one slot, depth <= 4 two slots", "thorough": "depth <= 6 / 5"},
@@ -331,7 +332,8 @@ PROPS = {
         "technique": 'TLC model checking of Histogram.tla + replay of find tables/histories + TLC trace validation (LEN 10, 100)',
         "title": "a histogram counts each sample in the unique half-open bin that contains it",
         "mc": [MC_HF1, MC_HF],
-        "replay": [gen_h("find", 1), gen_h("find", 2), gen_h("find", 3), gen_h("find", 4, skip=(True, False))] + H_HIST,
+        "replay": [gen_h("find", 1), gen_h("find", 2), gen_h("find", 3), gen_h("find", 4, skip=(True, False)),
+                   gen_h("cw", 3), gen_h("cw", 10), gen_h("cw", 100)] + H_HIST,
         "trace": [tr_h(10), tr_h(100, n=("1500", "10000"))],
         "rule": "every valid edge vector over {-inf,-1,-0.0,0,0.5,1,2,+inf} for LEN 1..3 (4 in the thorough tier), every sample of "
                 "the refined lattice (every edge value, its floating-point neighbours, midpoints, +-inf, +-f64::MAX, NaN, -0.0): "
